@@ -115,6 +115,29 @@ func runC20(c *Ctx) {
 		c.Check("C20.G", "waitForHealthy:disabled-returns", p, f.Pos(), h3 != nil, "with checks disabled it returns at once", "with health checks disabled waitForHealthy does not return")
 	}
 	if f := c.need(p, "C20.G", "agent.healthCheck"); f != nil {
+		// healthCheck may hand on, unchanged, the verdict of a new helper that does the probing
+		// (probe + classification split in two): judge the function that forms the verdict
+		for depth := 0; depth < 3; depth++ {
+			var del *ssa.Function
+			all := true
+			for _, r := range Returns(f) {
+				call, isCall := ReturnValue(r, 0).(*ssa.Call)
+				if !isCall {
+					all = false
+					break
+				}
+				h, isFn := calleeFn(call.Call.Value)
+				if !isFn || !IsNewHelper(h) || (del != nil && del != h) || h.Signature.Results().Len() != 1 {
+					all = false
+					break
+				}
+				del = h
+			}
+			if !all || del == nil {
+				break
+			}
+			f = del
+		}
 		env := func(st int64) Env {
 			return func(v ssa.Value) (constant.Value, bool) {
 				if _, fld, ok := FieldLoad(v); ok && fld == "StatusCode" {
@@ -129,18 +152,18 @@ func runC20(c *Ctx) {
 		}
 		bad := ""
 		for _, st := range []int64{100, 199, 201, 204, 301, 302, 404, 500, 503} {
-			if h, _ := (&Walk{Target: nilRet, Edge: EdgeUnder(env(st))}).FromBlock(f.Blocks[0]); h != nil {
+			if h, _ := (&Walk{Target: nilRet, Edge: EdgeUnder(env(st)), Local: true}).FromBlock(f.Blocks[0]); h != nil {
 				bad = fmt.Sprintf("status %d counts as healthy", st)
 			}
 		}
-		h200, _ := (&Walk{Target: nilRet, Edge: EdgeUnder(env(200))}).FromBlock(f.Blocks[0])
+		h200, _ := (&Walk{Target: nilRet, Edge: EdgeUnder(env(200)), Local: true}).FromBlock(f.Blocks[0])
 		c.Check("C20.G", "healthCheck:only-200-is-healthy", p, f.Pos(), bad == "" && h200 != nil, "nil is returned only for status 200", "healthCheck: "+bad)
 	}
 
 	// ---- C20.U
 	if f := c.need(p, "C20.U", "agent.runHealthChecks"); f != nil {
 		hc := Calls(f, hcName)
-		fatal := Calls(f, exitCallees...)
+		fatal := ExitCalls(f)
 		if len(hc) != 1 || len(fatal) != 1 {
 			c.Unk("C20.U", "counter:shape", p, f.Pos(), fmt.Sprintf("expected one healthCheck() call and one terminating call in runHealthChecks, found %d/%d", len(hc), len(fatal)))
 		} else {
@@ -335,7 +358,7 @@ func runC20(c *Ctx) {
 				if CalleeName(cc) == "time.Sleep" {
 					sleep = i
 				}
-				if IsCall(i, exitCallees...) {
+				if IsExitCall(i) {
 					fatal = i
 				}
 			})
@@ -444,26 +467,42 @@ func runC20(c *Ctx) {
 		}
 		// ---- C20.W
 		bad := ""
-		var confined func(prm *ssa.Parameter, depth int)
-		confined = func(prm *ssa.Parameter, depth int) {
-			if prm == nil {
+		var confined func(v ssa.Value, depth int)
+		confined = func(v ssa.Value, depth int) {
+			if v == nil || depth > 4 {
 				return
 			}
-			for _, r := range Refs(prm) {
+			if prm, isP := v.(*ssa.Parameter); isP && prm == nil {
+				return
+			}
+			for _, r := range Refs(v) {
 				switch x := r.(type) {
-				case *ssa.Call:
-					if x.Call.IsInvoke() && x.Call.Value == ssa.Value(prm) {
-						n := x.Call.Method.Name()
-						if n == "Done" || n == "Err" {
+				case ssa.CallInstruction:
+					cc := x.Common()
+					if cc.IsInvoke() && cc.Value == v {
+						n := cc.Method.Name()
+						// the poll loop itself watches Done(); anything it hands the context to may
+						// only read it (Err/Value/Deadline) — waiting on Done() there would abort
+						// work in flight when polling stops
+						if n == "Err" || n == "Value" || n == "Deadline" || (n == "Done" && depth == 0) {
+							continue
+						}
+						bad = "asked " + n + "() at " + p.Pos(x.Pos()) + " by code the poll loop handed it to"
+						continue
+					}
+					// a context derived for its values only is the same context
+					if CalleeName(cc) == "context.WithValue" && len(cc.Args) > 0 && cc.Args[0] == v {
+						if cv, isV := x.(ssa.Value); isV {
+							confined(cv, depth+1)
 							continue
 						}
 					}
-					// handed to a module function: harmless if that function confines it too
-					// (e.g. accepts it for later use and ignores it today)
-					if callee := x.Call.StaticCallee(); callee != nil && len(callee.Blocks) > 0 && p.IsModFunc(callee) && depth < 3 {
+					// handed to a module function (called, started with go, deferred): harmless if
+					// that function confines it too (e.g. accepts it for logging and ignores it otherwise)
+					if callee := StaticFunc(cc); callee != nil && len(callee.Blocks) > 0 && p.IsModFunc(callee) {
 						handled := false
-						for k, a := range x.Call.Args {
-							if a == ssa.Value(prm) && k < len(callee.Params) {
+						for k, a := range cc.Args {
+							if a == v && k < len(callee.Params) {
 								confined(callee.Params[k], depth+1)
 								handled = true
 							}
@@ -472,14 +511,67 @@ func runC20(c *Ctx) {
 							continue
 						}
 					}
-					bad = "passed to / used by " + CalleeName(x.Common()) + " at " + p.Pos(x.Pos())
+					bad = "passed to / used by " + CalleeName(cc) + " at " + p.Pos(x.Pos())
 				case *ssa.DebugRef:
+				case *ssa.Store:
+					// spilled into a local cell because a function literal captures it: follow the cell
+					cell, isCell := x.Addr.(*ssa.Alloc)
+					if !isCell || x.Val != v {
+						bad = fmt.Sprintf("stored at %s", p.Pos(x.Pos()))
+						continue
+					}
+					for _, u := range Refs(cell) {
+						switch y := u.(type) {
+						case *ssa.UnOp:
+							confined(y, depth)
+						case *ssa.MakeClosure:
+							if fn, isFn := y.Fn.(*ssa.Function); isFn {
+								for k, b := range y.Bindings {
+									if b == ssa.Value(cell) && k < len(fn.FreeVars) {
+										for _, fr := range Refs(fn.FreeVars[k]) {
+											if ld, isLd := fr.(*ssa.UnOp); isLd {
+												confined(ld, depth+1)
+											} else if _, isDbg := fr.(*ssa.DebugRef); !isDbg {
+												bad = fmt.Sprintf("captured and used by %T at %s", fr, p.Pos(fr.Pos()))
+											}
+										}
+									}
+								}
+							}
+						case *ssa.Store, *ssa.DebugRef:
+						default:
+							bad = fmt.Sprintf("its cell is used by %T at %s", u, p.Pos(u.Pos()))
+						}
+					}
+				case *ssa.Return:
+					// handed back by a module function (a context derived for its values): continue at the call sites
+					fn := x.Parent()
+					n := 0
+					for _, g := range p.AllFuncs {
+						EachInstrRaw(g, func(i ssa.Instruction) {
+							if ci, isCall := i.(*ssa.Call); isCall && StaticFunc(&ci.Call) == fn {
+								n++
+								confined(ci, depth+1)
+							}
+						})
+					}
+					if n == 0 {
+						bad = "returned at " + p.Pos(x.Pos()) + " to callers this rule cannot find"
+					}
+				case *ssa.MakeInterface:
+					confined(x, depth)
+				case *ssa.ChangeInterface:
+					confined(x, depth)
+				case *ssa.Phi:
+					confined(x, depth+1)
 				default:
 					bad = fmt.Sprintf("used by %T at %s (stored, captured or handed on)", r, p.Pos(r.Pos()))
 				}
 			}
 		}
-		confined(ParamAt(f, 0), 0)
+		if prm := ParamAt(f, 0); prm != nil {
+			confined(prm, 0)
+		}
 		c.Check("C20.W", "polling-context:confined", p, f.Pos(), bad == "", "the polling context is only asked Done()/Err() inside pollForNewRequests: nothing a worker uses depends on it", "the polling context is "+bad+": cancelling polling on shutdown also cancels what that value was given to (e.g. the HTTP client the workers use to fetch requests and upload responses), so requests already forwarded are not answered")
 		if ra := p.Func("agent.runAdapter"); ra != nil {
 			ruleParamOnlyPassedTo(c, p, "C20.W", "runAdapter:polling-context-only-for-the-poller", ra, 1, ag+".pollForNewRequests", 0, "runAdapter hands the polling context to pollForNewRequests and to nothing else", "the polling context leaks out of the poller in runAdapter: whatever receives it (a transport wrapper, the shared HTTP client, the handler chain) is cancelled together with polling, so uploads of requests already forwarded are aborted at shutdown")
@@ -501,11 +593,30 @@ func runC20(c *Ctx) {
 		if g := c.UniqueCall("C20.W", p, f, false, ag+".processOneRequest"); g != nil {
 			okA := true
 			for _, a := range PArgs(CallOf(g)) {
-				if NamedType(a.Type()) == "context.Context" {
+				if a == nil || NamedType(a.Type()) != "context.Context" {
+					continue
+				}
+				// a context handed to the worker is the polling context itself (whose uses in the
+				// worker are judged by polling-context:confined: read-only), one derived from it
+				// for its values, or a background context
+				for _, r := range Roots(a) {
+					for k := 0; k < 4; k++ {
+						if wv := CallResult(r, 0, "context.WithValue"); wv != nil {
+							rs := Roots(wv.Call.Args[0])
+							if len(rs) == 1 {
+								r = rs[0]
+								continue
+							}
+						}
+						break
+					}
+					if r == ssa.Value(ParamAt(f, 0)) || CallResult(r, 0, "context.Background", "context.TODO") != nil {
+						continue
+					}
 					okA = false
 				}
 			}
-			c.Check("C20.W", "worker:no-context-argument", p, g.Pos(), okA, "workers are started without any context of the poller", "a context is handed to the worker")
+			c.Check("C20.W", "worker:no-context-argument", p, g.Pos(), okA, "workers are started without a cancellable context of their own (none, or the polling context that they may only read)", "a context other than the (read-only) polling context or a background context is handed to the worker")
 		}
 	}
 }
